@@ -37,7 +37,9 @@ use vproj::toml::TomlCfg;
 use vproj::{GenOpts, gen_project};
 
 const RUNS: [usize; 11] = [usize::MAX, 1, 2, 3, 4, 6, 9, 14, 25, 50, 100];
-const WATCHDOG: Duration = Duration::from_secs(420);
+const WATCHDOG: Duration = Duration::from_secs(1500);
+/// a solo reference command (the machine may be heavily loaded)
+const SOLO_TIMEOUT: Duration = Duration::from_secs(1200);
 
 static AVOIDED: AtomicU64 = AtomicU64::new(0);
 static INFO_HALF_READ: AtomicU64 = AtomicU64::new(0);
@@ -403,8 +405,9 @@ fn same_project(ctx: &Ctx, d: &mut Draw) -> Outcome {
     if refs.values().any(|r| r.timed_out()) {
         return Outcome::skip("reference run timed out");
     }
-    if !refs.values().all(|r| r.all_ok()) {
-        return Outcome::skip("clean run not successful");
+    if let Some(bad) = refs.values().find(|r| !r.all_ok()) {
+        let code = bad.cmds[0].diags.iter().find(|x| !x.code.is_empty()).map(|x| x.code.clone()).unwrap_or_default();
+        return Outcome::skip(format!("clean run not successful ({} {code})", bad.brief()));
     }
     // sequential incremental baseline (C04's domain if it already differs)
     ws.restore_state("s", false);
@@ -591,7 +594,7 @@ fn two_projects(ctx: &Ctx, d: &mut Draw) -> Outcome {
     for (i, sp) in specs.iter().enumerate() {
         // (the third process shares A's directory: its reference runs on A's clean state too)
         wipe_project(&sp.root);
-        let r = veryl_at(&ws.bin, &sp.root, &ws.xdg, &sp.cmd.args(), &[], ws.timeout);
+        let r = veryl_at(&ws.bin, &sp.root, &ws.xdg, &sp.cmd.args(), &[], SOLO_TIMEOUT);
         if r.timed_out || !(r.code == Some(0)) {
             return Outcome::skip("solo reference run not successful");
         }
@@ -1024,7 +1027,7 @@ fn stress(ctx: &Ctx, d: &mut Draw) -> Outcome {
             continue;
         }
         wipe_project(root);
-        let r = veryl_at(&ws.bin, root, &ws.xdg, &c.args(), &[], ws.timeout);
+        let r = veryl_at(&ws.bin, root, &ws.xdg, &c.args(), &[], SOLO_TIMEOUT);
         if r.timed_out || r.code != Some(0) {
             return Outcome::skip("solo reference run not successful");
         }
@@ -1080,10 +1083,10 @@ pub fn run(ctx: &Ctx) {
     let n_two = dev("VERIF_C30_TWO", ctx.scale(32, 2000));
     let n_ls = dev("VERIF_C30_LS", ctx.scale(48, 3000));
     let n_stress = dev("VERIF_C30_STRESS", ctx.scale(16, 600));
-    ctx.run("two-projects", CaseCfg::cases(n_two).choices(400).timeout_s(1500).shrink_iters(6), |d| two_projects(ctx, d));
-    ctx.run("same-project", CaseCfg::cases(n_same).choices(900).timeout_s(1500).shrink_iters(12), |d| same_project(ctx, d));
-    ctx.run("build-ls", CaseCfg::cases(n_ls).choices(900).timeout_s(1500).shrink_iters(6), |d| build_ls(ctx, d));
-    ctx.run("stress", CaseCfg::cases(n_stress).choices(64).timeout_s(1500).shrink_iters(0), |d| stress(ctx, d));
+    ctx.run("two-projects", CaseCfg::cases(n_two).choices(400).timeout_s(9000).shrink_iters(6), |d| two_projects(ctx, d));
+    ctx.run("same-project", CaseCfg::cases(n_same).choices(900).timeout_s(9000).shrink_iters(12), |d| same_project(ctx, d));
+    ctx.run("build-ls", CaseCfg::cases(n_ls).choices(900).timeout_s(9000).shrink_iters(6), |d| build_ls(ctx, d));
+    ctx.run("stress", CaseCfg::cases(n_stress).choices(64).timeout_s(9000).shrink_iters(0), |d| stress(ctx, d));
     ctx.note("std_race_class_excluded_cases", json!(AVOIDED.load(Ordering::Relaxed)));
     ctx.note("processes_started_while_info_toml_half_written", json!(INFO_HALF_READ.load(Ordering::Relaxed)));
     ctx.note(
